@@ -238,11 +238,12 @@ CODEC_NOTE = ("Values are built by reflection over the repository's own types (h
 
 check("C11", "internal/zzverif/codec",
       rule="case = one random value of one of the 121 serialisable types (sequence sizes 0..3, byte strings 0..300, boundary-biased integers, optional fields present/absent, dictionaries of 0..3 entries): encoded with a fresh encoder and 2-4 times with pooled encoders that just encoded something else (all encodings must be identical, which also exposes map-iteration-order dependence), "
-           "decoded (no error, consumed = length), compared with the original by deep equality modulo nil/empty; plus fuzz-protocol messages of all 7 kinds through MarshalBinary / ReadFrom / MarshalBinary. distinct_nontrivial = distinct encodings longer than one byte + distinct frames",
-      technique="round-trip and determinism monitor over reflection-generated values of every serialisable type and fuzz messages",
+           "decoded (no error, consumed = length), compared with the original by deep equality modulo nil/empty; plus fuzz-protocol messages of all 7 kinds through MarshalBinary / ReadFrom / MarshalBinary; pool part: 40 rounds of 2..32 goroutines x 300 encodings through types.GetEncoder/PutEncoder, compared (after the encoder went back to the pool) with private-encoder encodings, under the race detector. distinct_nontrivial = distinct encodings longer than one byte + distinct frames",
+      technique="round-trip and determinism monitor over reflection-generated values of every serialisable type and fuzz messages; race detector + result comparison on concurrent use of the encoder pool",
       level_text="Identity oracle (decode . encode = id, encode deterministic) on generated values of every codec type; held = no failure on what was explored.",
-      note=CODEC_NOTE + " Concurrent use of the encoder pool is not exercised.",
-      shards=(8, 16), floors={"any": {"round_trips": 20000, "types_with_round_trips": 115, "round_trips_of_values_with_dictionaries": 1500, "message_round_trips": 1000}},
+      note=CODEC_NOTE + " The pool part (race build) has 2..32 goroutines draw encoders from the shared pool, return them at once and compare the bytes they were handed later with encodings made by private encoders.",
+      shards=(8, 16), floors={"any": {"round_trips": 20000, "types_with_round_trips": 115, "round_trips_of_values_with_dictionaries": 1500, "message_round_trips": 1000, "pooled_encodings_under_concurrency": 50000}},
+      extra_parts=[{"name": "pool", "pkg": "internal/zzverif/codec", "race": True, "test": "TestVerifC11Pool", "shards": {"quick": 4, "thorough": 8}}],
       assumptions=[STANDIN_VRF])
 
 check("C13", "internal/zzverif/codec",
